@@ -40,10 +40,12 @@ impl From<Rgb> for Hsv {
 impl From<Hsv> for Rgb {
     fn from(hsv: Hsv) -> Self {
         if hsv.s == 0.0 {
+            // value is a percentage, scale it to a byte like the chromatic branch does
+            let grey = (hsv.v / 100.0 * 255.0) as u8;
             return Rgb {
-                r: hsv.v as u8,
-                g: hsv.v as u8,
-                b: hsv.v as u8,
+                r: grey,
+                g: grey,
+                b: grey,
             };
         }
 
@@ -69,6 +71,7 @@ impl From<Hsv> for Rgb {
             2 => Rgb::new(up, uv, ut),
             3 => Rgb::new(up, uq, uv),
             4 => Rgb::new(ut, up, uv),
+            5 => Rgb::new(uv, up, uq),
             _ => Rgb::default(),
         }
     }
